@@ -28,7 +28,7 @@ type PG struct {
 	feat    map[string]bool // features used (for the evidence distribution)
 }
 
-func (g *PG) f(s string)      { g.feat[s] = true }
+func (g *PG) f(s string)           { g.feat[s] = true }
 func (g *PG) w(f string, a ...any) { fmt.Fprintf(&g.sb, f, a...) }
 
 func (g *PG) vars(typ string) []string {
